@@ -269,7 +269,12 @@ impl ToolRunner {
             return events;
         };
 
-        match hook.rewind(session_id, checkpoint_id) {
+        #[cfg(rip_verif)]
+        rip_kernel::verif::span("ckpt.action", true, "rewind");
+        let rewound = hook.rewind(session_id, checkpoint_id);
+        #[cfg(rip_verif)]
+        rip_kernel::verif::span("ckpt.action", false, "rewind");
+        match rewound {
             Ok(record) => events.push(self.emit(
                 session_id,
                 seq,
@@ -320,7 +325,12 @@ impl ToolRunner {
             tool_name: None,
         };
 
-        match hook.create(request) {
+        #[cfg(rip_verif)]
+        rip_kernel::verif::span("ckpt.action", true, "create");
+        let created = hook.create(request);
+        #[cfg(rip_verif)]
+        rip_kernel::verif::span("ckpt.action", false, "create");
+        match created {
             Ok(record) => events.push(self.emit(
                 session_id,
                 seq,
